@@ -105,13 +105,15 @@ def gen_vectors(ck, astp, ast):
     return vecs
 
 
-def key_of(e):
+def key_of(e, note=""):
+    """stable key of a rejected trace event: the segment's subject (type / function), not which of its events failed first"""
     k = e.get("k", "?")
-    name = e.get("ty") or e.get("fn") or e.get("name") or "?"
-    key = "C10:%s:%s" % (k, name)
-    if e.get("why") == "truncated":
-        key += ":truncated"
-    return key
+    subject = note.split(" ")[-1].split(":")[-1] if note else (e.get("ty") or e.get("fn") or "?")
+    if k in ("Marshal", "Unmarshal"):
+        return "C10:codec:%s" % (e.get("ty") or subject)
+    if k == "Call":
+        return "C10:Call:%s" % (e.get("fn") or subject)
+    return "C10:%s:%s" % (k, subject)
 
 
 def judge(ck, traces, what):
@@ -125,7 +127,7 @@ def judge(ck, traces, what):
         for rj in rejected:
             e = rj["event"]
             small = {k: (v if len(json.dumps(v)) < 4000 else json.dumps(v)[:4000] + "...") for k, v in e.items() if k != "schema"}
-            ck.report(key_of(e), "%s: recorded event is not what TlSem defines: segment at line %d accepted %d of %d events; rejected %s" % (
+            ck.report(key_of(e, rj["segment"][0].get("note", "")), "%s: recorded event is not what TlSem defines: segment at line %d accepted %d of %d events; rejected %s" % (
                 what, rj["seg"], rj["accepted"], rj["length"], json.dumps(small)[:1500]),
                 {"kind": "trace", "event": e, "segment_note": rj["segment"][0].get("note", "")})
 
@@ -202,10 +204,16 @@ def run(ck):
     for r_ in results[:-1]:
         if r_["match"]:
             ck.traces_ok += 1
-        else:
-            v = byvec[r_["vec"]]
-            ck.report("C10:replay:%s:%s" % (v["op"], v["ty"]), "bindings disagree with the specification's encoding: %s; vector %s" % (
-                json.dumps({k: r_[k] for k in r_ if k not in ("vec", "match")})[:600], json.dumps(v)[:900]), {"kind": "vector", "vector": v, "got": r_})
+            continue
+        v = byvec[r_["vec"]]
+        # one key per direction and failure class: Dec = the bindings parsing the specification's bytes, Enc = the bindings
+        # serialising the specification's value; sub = refused (error) | panic | differs | unread | request-decoder
+        for f in r_.get("fails") or [{"stage": "Dec", "sub": "differs", "detail": ""}]:
+            ck.report("C10:replay:%s:%s:%s" % (f["stage"], v["ty"], f["sub"]),
+                      "bindings disagree with the specification (%s of an in-domain vector, %s, Go type %s): %s; vector %s" % (
+                          "parsing the bytes" if f["stage"] == "Dec" else "serialising the value", f["sub"], f.get("go", "?"),
+                          json.dumps({k: f[k] for k in f if k in ("detail", "got_v", "got_hex")})[:600], json.dumps(v)[:900]),
+                      {"kind": "vector", "vector": v, "got": r_})
     ck.evaluations += len(plain)
     ck.sample({"direction": "S->C", "vector": plain[len(plain) // 3]})
     # canary S->C: corrupt the expected bytes of one vector
@@ -246,16 +254,22 @@ def run(ck):
     ck.sample({"direction": "client call", "event": {k: v for k, v in cevs[1].items() if k != "schema"}})
 
     # ---------------------------------------------------------------- canaries C->S
+    # each canary is a two-line trace (the Reset of the event's segment + the corrupted event), so that a genuine
+    # rejection elsewhere cannot disturb it
+    def pair(lst, i):
+        r = max(j for j in range(i + 1) if lst[j]["k"] == "Reset")
+        return copy.deepcopy([lst[r], lst[i]])
     body = [e for e in evs if e.get("k") != "End"]
     im = next(i for i, e in enumerate(body) if e["k"] == "Marshal" and len(e["hex"]) >= 8)
-    c1 = copy.deepcopy(body[:im + 2]); c1[im]["hex"] = flip_hex(c1[im]["hex"])
+    c1 = pair(body, im); c1[1]["hex"] = flip_hex(c1[1]["hex"])
     iu = next(i for i, e in enumerate(body) if e["k"] == "Unmarshal" and e["err"] == "" and e["rest"] > 0)
-    c2 = copy.deepcopy(body[:iu + 2]); c2[iu]["rest"] -= 4
-    c3 = copy.deepcopy(body[:iu + 2]); c3[iu]["hex"] = flip_hex(c3[iu]["hex"], 0)
+    c2 = pair(body, iu); c2[1]["rest"] -= 4
+    c3 = pair(body, iu); c3[1]["hex"] = flip_hex(c3[1]["hex"], 0)
     cb = [e for e in cevs if e.get("k") != "End"]
-    ic = next(i for i, e in enumerate(cb) if e["k"] == "Call" and e["err"] == "")
-    c4 = copy.deepcopy(cb[:ic + 1]); c4[ic]["payload"] = flip_hex(c4[ic]["payload"], len(c4[ic]["payload"]) - 16)
-    c5 = copy.deepcopy(cb[:ic + 1]); c5[ic]["err"] = "e"; del c5[ic]["res"]
+    ic = next(i for i, e in enumerate(cb) if e["k"] == "Call" and e["err"] == "" and "res" in e)
+    c4 = pair(cb, ic); c4[1]["payload"] = flip_hex(c4[1]["payload"], len(c4[1]["payload"]) - 16)
+    c5 = pair(cb, ic); c5[1]["err"] = "e"; del c5[1]["res"]
+    im = iu = ic = 1
     canary_traces(ck, [("marshal: one byte of a recorded encoding flipped", c1, im + 1),
                        ("unmarshal: unread tail misreported", c2, iu + 1),
                        ("unmarshal-input: first byte of the input changed, value kept", c3, iu + 1),
